@@ -1,25 +1,24 @@
-/* Contracts for src/sp/protocol/pubsub0/sub.c */
-#ifndef VP_SUB_CONTRACTS_H
-#define VP_SUB_CONTRACTS_H
-/* clang-format off */
 #define RV __CPROVER_return_value
 #define OLD(e) __CPROVER_old(e)
-
-/* ghost: the topics of the context under test (members of the real list) */
 size_t      g_nt;
 sub0_topic *g_t0, *g_t1, *g_t2;
-
-/* ---- C05: matching == "some current subscription is a prefix of the body" ----
- * for every list of <= 3 topics (empty topic, topics longer than the body,
- * duplicates, overlapping, arbitrary bytes) and every body. */
 static bool sub0_matches(sub0_ctx *ctx, uint8_t *body, size_t len)
-__CPROVER_requires(__CPROVER_is_fresh(ctx, sizeof(struct sub0_ctx)) && SUB_TOPICS_PRE(ctx, g_nt, g_t0, g_t1, g_t2))
-__CPROVER_requires(len == 0 || __CPROVER_is_fresh(body, len))
-__CPROVER_assigns()
-__CPROVER_ensures(RV == SUB_ORACLE(g_nt, g_t0, g_t1, g_t2, body, len))
-/* spelled out: no subscription matches nothing, the empty subscription matches everything */
-__CPROVER_ensures(g_nt == 0 ==> !RV)
-__CPROVER_ensures(((g_nt > 0 && g_t0->len == 0) || (g_nt > 1 && g_t1->len == 0) || (g_nt > 2 && g_t2->len == 0)) ==> RV)
-;
-/* clang-format on */
+__CPROVER_requires(__CPROVER_is_fresh(ctx, sizeof(struct sub0_ctx)) 
+#if VPV >= 1
+&& SUB_TOPICS_PRE(ctx, g_nt, g_t0, g_t1, g_t2)
+#else
+&& g_nt == 0
 #endif
+)
+#if VPV >= 2
+__CPROVER_requires(len == 0 || __CPROVER_is_fresh(body, len))
+#else
+__CPROVER_requires(len == 0)
+#endif
+__CPROVER_requires(g_qa_addr == &ctx->recv_queue && g_qb_addr == NULL)
+__CPROVER_assigns()
+#if VPV >= 3
+__CPROVER_ensures(VPE)
+#endif
+__CPROVER_ensures(g_nt == 0 ==> !RV)
+;
